@@ -17,6 +17,7 @@ func TestServiceIsAccepted(t *testing.T) {
 		for _, v := range []Variant{
 			{Order: order, Init: "zero"}, {Order: order, Init: "rich", Trigger: true},
 			{Order: order, Init: "zero", Spawn: true}, {Order: order, Init: "rich", Leaky: true},
+			{Order: order, Init: "zero", Relay: true}, {Order: order, Init: "rich", Relay: true, Trigger: true},
 		} {
 			ao := drive.Analyze(drive.Sources{"main": v.Source()}, "main", true)
 			if ao.Errors > 0 {
